@@ -136,7 +136,10 @@ def prelude_cases(tier, verif_seed):
             if typ.startswith("mixed-array"):
                 # the members of an array end up in a set: which one a validator meets first follows the hash seed
                 variants += [{"hashseed": h, "steps": _steps_for(None, [["lint", "--json"]])} for h in range(8)]
-            cases.append({"prop": PROP, "seed": 10_000 + n, "world": {"files": files}, "family": "toml-type",
+            world = {"files": files}
+            if n % 4 == 1:
+                world["root_name"] = ["proj{2024}", "{}", "100%s", "{0}"][(n // 4) % 4]
+            cases.append({"prop": PROP, "seed": 10_000 + n, "world": world, "family": "toml-type",
                           "trigger": f"toml:{key}:{typ}", "config": ["REUSE.toml"], "must_be_2": False, "variants": variants})
             n += 1
     return cases
@@ -208,6 +211,11 @@ def gen_case(seed, tier, index=0):
             case.update(trigger="conflict" if where == "REUSE.toml" else "conflict-nested", config=[where, ".reuse/dep5"], must_be_2=True, name_any=True)
         else:
             name, path, content = rng.pick(BROKEN)
+            if path == "REUSE.toml" and rng.chance(0.2):
+                # the broken file sits in a directory whose name means something to str.format / the % operator
+                d = rng.pick(["pkg{core}", "{}", "100%s", "{0}"])
+                path = f"{d}/REUSE.toml"
+                files.append({"path": f"{d}/x.py", "content": "x = 1\n"})
             files.append({"path": path, "content": content})
             if path != "REUSE.toml" and path.endswith("REUSE.toml") and rng.chance(0.5):
                 files.append({"path": "REUSE.toml", "content": 'version = 1\n[[annotations]]\npath = "**"\nSPDX-License-Identifier = "MIT"\n'})
@@ -322,6 +330,9 @@ def gen_case(seed, tier, index=0):
     else:
         case_git = None
     case["world"] = {"files": files}
+    if fam == "broken" and rng.chance(0.3):
+        # the project directory's own name ends up in the message that names the broken file
+        case["world"]["root_name"] = rng.pick(["proj{2024}", "{}", "{0}", "100%s", "a b", "p[1]", "%(x)s", "{name"])
     if case.get("fifo"):
         case["world"]["fifos"] = [case["fifo"]]
     if case_git:
